@@ -488,7 +488,21 @@ impl Harness for C05 {
             big("perm", "perm", 1, 6, 2, false, true);
             big("perm", "perm", 2, 4, 2, false, true);
             big("lat", "lat", 2, 4, 2, true, true);
-            big("lat", "lat", 1, 7, 2, true, true);
+        }
+        if t {
+            // n = 7: every data set, a 2 x 2 x 2 sub-grid of the configurations
+            for m in MODELS {
+                for d in [0i64, 2] {
+                    for l in [1i64, 2] {
+                        for s in [0i64, 3] {
+                            jobs.push(Job::new(
+                                format!("lat-{}-p1-n7-depth{}-msl{}-mss{}", m, d, l, s),
+                                json!({"kind": "lat", "alpha": "int", "model": m, "p": 1, "n": 7, "map": 2, "depth": d, "msl": l, "mss": s, "base_only": true}),
+                            ));
+                        }
+                    }
+                }
+            }
         }
         for j in jobs.iter_mut() {
             j.params["seed"] = json!(seed % 8);
@@ -524,7 +538,7 @@ impl Harness for C05 {
                 "adjacent_doubles": format!("every x over {{1+1ulp,1+2ulp,1+3ulp}}^n, n = 2..{} (p=1){}", ulp_max, if t { ", n = 2..3 (p=2)" } else { "" }),
                 "sort_regime": format!("every column over a 4-letter alphabet, n = 8..{}, 2 target patterns, 3 configurations, models {}", smax, if t { "all four" } else { "regressor + gini" }),
                 "structured": format!("n in {:?} x p in {:?} x 10 feature-column rotations x target patterns (4 regression; 3 x k classes) x configuration grid", ns, ps),
-                "configurations_lattice": "criterion {gini,entropy,classification error} x max_depth {None,1,2,3} x min_samples_leaf {1,2,3} x min_samples_split {0,2,3,4}",
+                "configurations_lattice": "criterion {gini,entropy,classification error} x max_depth {None,1,2,3} x min_samples_leaf {1,2,3} x min_samples_split {0,2,3,4} (p=1 n=7: max_depth {None,2} x min_samples_leaf {1,2} x min_samples_split {0,3})",
                 "configurations_structured": if t { "n < 64: max_depth {None,1,2,3,4,5,8} x msl {1..5} x mss {0,1,2,3,5,8}; n >= 64: max_depth {None,2,3,8} x msl {1,2,5} x mss {0,2,8}" } else { "max_depth {None,2,3,8} x msl {1,2,5} x mss {0,2,8}" },
                 "argsort": format!("every vector over a 4-letter alphabet, n = 1..{}", amax),
                 "per_case": format!("fit, predict (training rows + rows at/next to every threshold), refit, fit on features x 2^-3 and x 2^5; the bulk lattice jobs ({}) fit, predict and judge only", if t { "p=1 n=6,7; p=2 n=4; permutations p=1 n=6, p=2 n=4" } else { "p=1 n=5; p=2 n=3; permutations p=1 n=5" }),
